@@ -88,15 +88,21 @@ func simplifyCurve(curve Path,
 		breakTime := false
 		for j := i + 2; j < len(curve); j++ {
 			breakTime2 := false
+			// The segment to the last point is added regardless of distance
+			// below, so if it would cause a self intersection a point before
+			// the last one has to be kept, exactly as if it were too far away.
+			closingNotSimple := j == len(curve)-1 &&
+				(segMakesNotSimple(curve[i], curve[j], []Path{out}) ||
+					segMakesNotSimple(curve[i], curve[j], otherCurves))
 			for k := i + 1; k < j; k++ {
 				d := distPointToSegment(curve[k], curve[i], curve[j])
-				if d > tol {
+				if d > tol || closingNotSimple {
 					// we have found a candidate point to keep
 					for {
 						// Make sure this simplification doesn't cause any self
 						// intersections.
 						if j > i+2 &&
-							(segMakesNotSimple(curve[i], curve[j-1], []Path{out[0:i]}) ||
+							(segMakesNotSimple(curve[i], curve[j-1], []Path{out}) ||
 								segMakesNotSimple(curve[i], curve[j-1], []Path{curve[j:]}) ||
 								segMakesNotSimple(curve[i], curve[j-1], otherCurves)) {
 							j--
@@ -126,6 +132,9 @@ func simplifyCurve(curve Path,
 }
 
 func segMakesNotSimple(segStart, segEnd Point, paths []Path) bool {
+	if segStart == segEnd {
+		return false // a degenerate segment cannot cross anything
+	}
 	seg1 := segment{segStart, segEnd}
 	for _, p := range paths {
 		for i := 0; i < len(p)-1; i++ {
@@ -133,7 +142,7 @@ func segMakesNotSimple(segStart, segEnd Point, paths []Path) bool {
 			if seg1.start == seg2.start || seg1.end == seg2.end ||
 				seg1.start == seg2.end || seg1.end == seg2.start {
 				// colocated endpoints are not a problem here
-				return false
+				continue
 			}
 			numIntersections, _, _ := findIntersection(seg1, seg2)
 			if numIntersections > 0 {
